@@ -15,8 +15,8 @@ def sh(cmd, cwd=None, env=None, timeout=3600):
     return r.returncode, (r.stdout + r.stderr)
 
 
-def confirm(pid):
-    wt = f"/tmp/mut-{pid}"
+def confirm(pid, rnd=""):
+    wt = f"/tmp/mut{rnd}-{pid}"
     env = dict(ENV, CARGO_TARGET_DIR=f"{wt}/target")
     kept = []
     for mdir in sorted(glob.glob(f"{wt}/mutants/*/")):
@@ -82,21 +82,21 @@ def confirm(pid):
         if failed or ("error[" in out and "test result" not in out):
             print(f"{pid}-{n}: existing tests FAIL with the patch ({failed[:4]}) -> rejected\n{out[-400:] if not failed else ''}")
             continue
-        dest = f"/verif/seeded/{pid}-{n}"
+        dest = f"/verif/seeded/{pid}-{'r' + rnd + '-' if rnd else ''}{n}"
         os.makedirs(dest, exist_ok=True)
         shutil.copy(os.path.join(mdir, "patch.diff"), dest)
         shutil.copy(demo_src, os.path.join(dest, "demo_" + os.path.basename(demo_rel)))
         meta["confirmed_by_me"] = ran
         meta["breaks_property"] = pid
         json.dump(meta, open(os.path.join(dest, "meta.json"), "w"), indent=1)
-        kept.append(f"{pid}-{n}")
+        kept.append(os.path.basename(dest))
         print(f"{pid}-{n}: confirmed ({meta.get('summary', '')[:100]})")
     print("kept:", kept)
 
 
-def detect(pid, tier="quick"):
+def detect(pid, tier="quick", only=""):
     assert sh("git -C /repo status --porcelain")[1].strip() == "", "repo dirty"
-    for d in sorted(glob.glob(f"/verif/seeded/{pid}-*/")):
+    for d in sorted(glob.glob(f"/verif/seeded/{pid}-{only}*/")):
         meta_path = os.path.join(d, "meta.json")
         meta = json.load(open(meta_path))
         try:
@@ -124,6 +124,6 @@ def detect(pid, tier="quick"):
 
 if __name__ == "__main__":
     if sys.argv[1] == "confirm":
-        confirm(sys.argv[2])
+        confirm(sys.argv[2], sys.argv[3] if len(sys.argv) > 3 else "")
     else:
-        detect(sys.argv[2], sys.argv[3] if len(sys.argv) > 3 else "quick")
+        detect(sys.argv[2], sys.argv[3] if len(sys.argv) > 3 else "quick", sys.argv[4] if len(sys.argv) > 4 else "")
